@@ -89,23 +89,37 @@ Definition cstat_eqb (a b : cstat) : bool :=
 
 Definition wstat_eqb (a b : nat * cstat) : bool := Nat.eqb (fst a) (fst b) && cstat_eqb (snd a) (snd b).
 
-Definition tdobs := option (nat * Z * list (nat * tstat) * list tact * option Z).
+Definition sact_eqb (a b : sact) : bool :=
+  match a, b with
+  | SJoin t, SJoin t' => optZ_eqb t t'
+  | SKill, SKill => true
+  | _, _ => false
+  end.
+
+(* round 5: the observation covers the three phases.  tws = the workers as they stood when the teardown
+   began (delays relative to the moment each is asked); tacts = join/kill calls on the workers; el = the
+   time the WHOLE teardown took; then the shm server as it stood (segments held, length of its sweep),
+   the join/kill calls on it, and whether segments were left when everything was over. *)
+Definition tdobs := option (nat * Z * list (nat * tstat) * list tact * option Z * (sstat * list sact * bool)).
 
 Definition check_teardown (n : nat) (ns : list nat) (xs : list ev) (td : tdobs) : bool :=
   match td with
   | None => negb (terminating (fst (run_steps (init_ns n ns) xs)))
-  | Some (i, mono0, tws, tacts, el) =>
+  | Some (i, mono0, tws, tacts, el, (sst, sacts, left_)) =>
       let e := fst (run_steps (init_ns n ns) (firstn i xs)) in
       match nth_error xs i with
       | None => false
       | Some x =>
           negb (terminating e) && terminating (fst (apply_ev e x))
-          (* the timed workers are the ones the untimed model has at that moment *)
-          && list_eqb wstat_eqb (abs_workers tws) (workers e)
-          && (let '(ws', a, r) := reap_t mono0 0 tws in
-              list_eqb tact_eqb a tacts && optZ_eqb r el
+          && (let '(ws', a, t_ask, (lf, sa, r)) := teardown_t mono0 tws sst in
+              (* the timed workers are the ones the untimed model has at that moment: its Stuck = leaves after the deadline *)
+              list_eqb wstat_eqb (abs_workers_at (t_ask + grace) (fst (ask 0 tws))) (workers e)
+              && implb (abs_shm sst) (is_alive (shm e))
+              && list_eqb tact_eqb a tacts && optZ_eqb r el
+              && list_eqb sact_eqb sa sacts && Bool.eqb lf left_
               (* the proved bounds, re-evaluated on this very teardown *)
-              && no_live_worker ws' && match r with Some z => (z <=? grace)%Z | None => false end)
+              && no_live_worker ws' && negb lf
+              && match r with Some z => (z <=? t_ask + grace + sweep_of sst)%Z | None => false end)
       end
   end.
 
